@@ -100,11 +100,11 @@ fn all_for<T: Zoo>(ctx: &mut Ctx, exhaustive: bool) {
 pub fn run(ctx: &mut Ctx) {
     ctx.runner = "RunC08".into();
     ctx.shard_size = 200;
-    ctx.rule = "a zoo of 9 derived types (all primitive widths, char, strings, bytes, Option incl. nested containers, Vec, arrays, tuples, newtype / unit / tuple structs, enums with unit / newtype / tuple / struct variants, all-unit enums, string-keyed maps, rename / rename_all / default / skip_serializing_if / transparent): from_type under all 2^9 option sets (3 types exhaustive; quick: the other 6 under 40 seeded sets) compared inside Coq with the documented mapping doc_schema (specification) and with from_samples on a covering sample set (also compared with the tracer model); overwrites at every path of the traced tree (exact replacement), with a wrong name (error) and at a non-existent path (error). Non-trivial: all; distinct by (type, options, result)".into();
+    ctx.rule = "a zoo of 10 derived types (all primitive widths, char, strings, bytes, Option incl. nested containers, Vec, arrays, tuples, newtype / unit / tuple structs, enums with unit / newtype / tuple / struct variants, all-unit enums, string-keyed maps, maps keyed by enums with data / integers, rename / rename_all / default / skip_serializing_if / transparent): from_type under all 2^9 option sets (3 types exhaustive; quick: the other 6 under 40 seeded sets) compared inside Coq with the documented mapping doc_schema (specification) and with from_samples on a covering sample set (also compared with the tracer model); overwrites at every path of the traced tree (exact replacement), with a wrong name (error) and at a non-existent path (error). Non-trivial: all; distinct by (type, options, result)".into();
     let ex = true;
     all_for::<zoo::Prims>(ctx, ex); all_for::<zoo::Enums>(ctx, ex); all_for::<zoo::Maps>(ctx, ex);
     let rest = ctx.thorough;
-    all_for::<zoo::Nested>(ctx, rest); all_for::<zoo::Wrappers>(ctx, rest); all_for::<zoo::UnitEnums>(ctx, rest); all_for::<zoo::Attrs>(ctx, rest); all_for::<zoo::Deep>(ctx, rest);
+    all_for::<zoo::Nested>(ctx, rest); all_for::<zoo::Wrappers>(ctx, rest); all_for::<zoo::UnitEnums>(ctx, rest); all_for::<zoo::Attrs>(ctx, rest); all_for::<zoo::Deep>(ctx, rest); all_for::<zoo::OptEnums>(ctx, rest); all_for::<zoo::KeyMaps>(ctx, true);
     ctx.extra.insert("exhaustive".into(), json!(true));
-    ctx.extra.insert("exhaustive_domain".into(), json!("all 2^9 tracing option sets on the Prims, Enums and Maps types (thorough: on all 8 types)"));
+    ctx.extra.insert("exhaustive_domain".into(), json!("all 2^9 tracing option sets on the Prims, Enums, Maps and KeyMaps types (thorough: on all 10 types)"));
 }
